@@ -116,6 +116,7 @@ package stick
 // Set: exactly one entry is written — in the outermost scope that already defines the name, else in the
 // innermost scope; every other entry of every map is unchanged (whole-view postcondition).
 //@ func stick.(*scopeStack).Set
+//@   ensures others: forall p trig :: p != s ==> fld("stick.scopeStack", "scopes", p) == old(fld("stick.scopeStack", "scopes", p))
 //@   requires scopesOK(s)
 //@   ensures defined: forall i trig :: 0 <= i && i < len(s.scopes) && old(in(s.scopes[i], name)) && (forall j trig :: 0 <= j && j < i ==> !old(in(s.scopes[j], name))) ==>
 //@+     in(s.scopes[i], name) && s.scopes[i][name] == val
@@ -129,6 +130,7 @@ package stick
 
 // setLocal: only the innermost scope's entry for name.
 //@ func stick.(*scopeStack).setLocal
+//@   ensures others: forall p trig :: p != s ==> fld("stick.scopeStack", "scopes", p) == old(fld("stick.scopeStack", "scopes", p))
 //@   requires scopesOK(s)
 //@   ensures set: in(top(s), name) && top(s)[name] == val
 //@   ensures frame: forall m, k :: (m != top(s) || k != keyof(name)) ==> mdom("map[string]Value", m, k) == old(mdom("map[string]Value", m, k)) && mval("map[string]Value", m, k) == old(mval("map[string]Value", m, k))
@@ -136,6 +138,7 @@ package stick
 
 // push: a fresh empty map on top; everything below is the same map, in place.
 //@ func stick.(*scopeStack).push
+//@   ensures others: forall p trig :: p != s ==> fld("stick.scopeStack", "scopes", p) == old(fld("stick.scopeStack", "scopes", p))
 //@   ensures len: len(s.scopes) == old(len(s.scopes)) + 1
 //@   ensures fresh: fresh(top(s)) && top(s) != nil && (forall k :: !mdom("map[string]Value", top(s), k))
 //@   ensures below: forall i :: 0 <= i && i < old(len(s.scopes)) ==> s.scopes[i] == old(s.scopes[i])
@@ -143,6 +146,7 @@ package stick
 
 // pop: the innermost scope is dropped; index 0 is the caller's context and must never be popped.
 //@ func stick.(*scopeStack).pop
+//@   ensures others: forall p trig :: p != s ==> fld("stick.scopeStack", "scopes", p) == old(fld("stick.scopeStack", "scopes", p))
 //@   requires depth: len(s.scopes) >= 2
 //@   ensures len: len(s.scopes) == old(len(s.scopes)) - 1
 //@   ensures below: forall i :: 0 <= i && i < len(s.scopes) ==> s.scopes[i] == old(s.scopes[i])
@@ -452,3 +456,20 @@ package stick
 //@ func stick.(*Env).load
 //@   requires env.Loader != nil
 //@   ensures ok: err == nil ==> r0 != nil && r0.root != nil && len(r0.blocks) >= 1 && r0.macros != nil
+
+// Context API (called by user callbacks on a running state) and the public entry points: what the caller
+// of the library must provide (assumption on the environment, not proved): a loader, a writer, non-nil callbacks.
+//@ func stick.(*state).Scope
+//@   requires s.scope != nil
+//@ func stick.(*state).Meta
+//@   requires s.meta != nil
+//@ func stick.(*metadata).Set
+//@   requires m.attr != nil
+//@ func stick.(*Env).Execute
+//@   requires api: env.Loader != nil && out != nil && cbOK(env)
+//@ func stick.(*Env).ExecuteSafe
+//@   requires api: env.Loader != nil && out != nil && cbOK(env)
+//@ func stick.(*Env).Parse
+//@   requires api: env.Loader != nil
+//@ func stick.(*Env).Register
+//@   requires api: e != nil
